@@ -54,7 +54,8 @@ def run(ctx):
         "qr": lambda fc: fc[0] == "truth" and A.path_str(fc[1]) == "param2.header.is_response" and fc[2] is True,
         "opcode": A.cmp_fact({"Eq"}, Path("param1.header.opcode"), Path("param2.header.opcode")),
         "tc": lambda fc: fc[0] == "truth" and A.path_str(fc[1]) == "param2.header.is_truncated" and fc[2] is False,
-        "rcode": A.cmp_fact({"Eq"}, Path("param2.header.rcode"), RC({"NoError", "NameError"})),
+        "rcode": lambda fc: A.cmp_fact({"Eq"}, Path("param2.header.rcode"), RC({"NoError", "NameError"}))(fc)
+                            or (fc[0] == "is" and fc[1] in ("NoError", "NameError") and A.path_str(fc[2]) == "param2.header.rcode"),     # `matches!(rcode, NoError | NameError)`
         "questions": A.cmp_fact({"Eq"}, Path("param1.questions"), Path("param2.questions")),
     }
     for b in true_blocks:
@@ -76,7 +77,7 @@ def run(ctx):
     ctx.floor("C06.2", "to_octets of the request", len(ser), 1, exact=True)
     req_path = A.path_str(qr.call_expr(ser[0][1], ser[0][0])[2][0]) if ser else None
     for n, (b, e) in enumerate(somes):
-        payload = dict(A.peel(e)[3])["0"]
+        payload = A.payload_of_merge(dict(A.peel(e)[3])["0"])      # through `opt.filter(..)` / a match that re-wraps the reply
         def pred(fc, payload=payload):
             return fc[0] == "call" and fc[1] == NSM + "response_matches_request" and fc[3] is True \
                 and A.path_str(fc[2][0]) == req_path and A.same(fc[2][1], payload)
@@ -141,7 +142,10 @@ def run(ctx):
     rets = [e for b, e in A.return_exprs(fc_, fr) if A.peel(e)[0] == "agg" and A.peel(e)[2] == "Some"]
     ctx.floor("C06.4", "Some((final, map)) return of follow_cnames", len(rets), 1, exact=True)
     ret_map_local = None
+    ret_blocks = {b for b, e in A.return_exprs(fc_, fr) if A.peel(e)[0] == "agg" and A.peel(e)[2] == "Some"}
     for b, i, st in A.aggregates(fc_, "std::option::Option", "Some"):
+        if b not in ret_blocks:
+            continue                # a Some(..) built for something else (e.g. inside a spliced closure)
         # payload is a tuple (final_name, map)
         op = st["rv"]["ops"][0]
         pl = A.op_place(op)
